@@ -319,6 +319,11 @@ def call_method(I, r, name, args, node):
             used("AtomicBool::store")
             r.fields["__atomic"] = I.deref(args[0])
             return UNIT
+        if name in ("swap",) and isinstance(r, Struct) and "__atomic" in r.fields:
+            used("AtomicBool::swap")
+            old_v = r.fields["__atomic"]
+            r.fields["__atomic"] = I.deref(args[0])
+            return old_v
         # unmodelled method of a user/third-party type: havoc
         I.havocs.add(f"{I.type_name(r)}.{name}")
         return Opaque(f"{I.type_name(r)}.{name}()")
